@@ -68,9 +68,34 @@ def gen_dst_case(r: Any) -> dict:
     return {"now_us": now, "t": {"us": t, "repr": r.choice([f"zi:{zone}", f"zi:{zone}", f"pytz:{zone}"])}, "dst": True}
 
 
-def gen_case(r: Any, base: int) -> dict:
+def gen_fold_pair(r: Any) -> list:
+    """Two targets with the same wall-clock reading in a zoneinfo zone, one hour apart as instants (the repeated hour when DST
+    ends: fold=0 and fold=1), evaluated one after the other in the same process against the same now."""
+    from datetime import datetime, timezone
+    from zoneinfo import ZoneInfo
+    zone = r.choice(DST_ZONES)
+    z = ZoneInfo(zone)
+    tr = transitions(zone, r.randint(2016, 2034))
+    back = [u for u in tr if datetime.fromtimestamp(u / 1e6, timezone.utc).astimezone(z).utcoffset()
+            < datetime.fromtimestamp(u / 1e6 - 1800, timezone.utc).astimezone(z).utcoffset()]
+    if not back:
+        return [gen_dst_case(r)]
+    u = r.choice(back)                      # first instant after the clocks went back
+    shift = int((datetime.fromtimestamp(u / 1e6 - 1800, timezone.utc).astimezone(z).utcoffset()
+                 - datetime.fromtimestamp(u / 1e6, timezone.utc).astimezone(z).utcoffset()).total_seconds()) * 1_000_000
+    t2 = u + r.randint(0, shift - 1)        # second occurrence of the wall time (fold=1)
+    t1 = t2 - shift                         # first occurrence (fold=0)
+    now = r.choice([t1, t2]) - r.choice([r.randint(1, 61_000_000), r.randint(1, 61_000_000), -5_000_000, r.randint(0, 2 * shift)])
+    pair = [{"now_us": now, "t": {"us": t1, "repr": f"zi:{zone}"}, "dst": True, "fold_pair": True},
+            {"now_us": now, "t": {"us": t2, "repr": f"zi:{zone}"}, "dst": True, "fold_pair": True}]
+    if r.random() < 0.5:
+        pair.reverse()
+    return pair
+
+
+def gen_case(r: Any, base: int) -> Any:
     if r.random() < 0.15:
-        return gen_dst_case(r)
+        return gen_dst_case(r) if r.random() < 0.7 else gen_fold_pair(r)
     c = r.randint(0, 7)
     if c == 0:
         now = base - base % 60_000_000 + r.choice([0, 1, 59_999_999, 59_000_000, 999_999, 1_000_000])
@@ -105,7 +130,11 @@ def gen(rs: int, tier: str, index: int) -> dict:
         s["mode"] = "insitu"
         return s
     base = gen_start(r)
-    return {"world": "sched", "mode": "sweep", "run_seed": rs, "cases": [gen_case(r, base) for _ in range(300)],
+    cases: list = []
+    for _ in range(300):
+        c = gen_case(r, base)
+        cases.extend(c if isinstance(c, list) else [c])
+    return {"world": "sched", "mode": "sweep", "run_seed": rs, "cases": cases,
             "tz": r.choice(["UTC", "Etc/GMT-3", "Etc/GMT+7", "Asia/Kathmandu", "Asia/Tokyo", "America/Phoenix"])}
 
 
